@@ -26,10 +26,37 @@ def problem1d(case, state_key="state", model_desc=None):
     P.disc = cases.build_disc(P.model, P.mesh, case["num"], case.get("flux"), bcL, bcR)
     smd = md if md["name"] != "nozzle" else dict(name="euler1d", gamma=md.get("gamma", 1.4))
     P.smd = smd
-    P.prim = cases.prim_state(smd, case[state_key], cases.norm_coord(P.xf))
+    P.prim = apply_units(smd, cases.prim_state(smd, case[state_key], cases.norm_coord(P.xf)), case.get("units"))
     P.cons = cases.cons_from_prim(smd, P.prim)
     P.field = cases.build_field(P.model, P.mesh, P.cons)
     return P
+
+
+def apply_units(md, prim, units):
+    """the state expressed in other density / velocity units, units = [ka, kb] (powers of ten): Euler rho*a, u*b, p*a*b^2; shallow water h*b^2, u*b (g kept);
+    Burgers u*b; convection unchanged (its speed is a model parameter)"""
+    if not units or md["name"] == "convection":
+        return prim
+    a, b = 10.0 ** units[0], 10.0 ** units[1]
+    name = md["name"]
+    if name == "burgers":
+        return [prim[0] * b]
+    if name == "shallowwater":
+        return [prim[0] * b * b, prim[1] * b]
+    if name == "euler2d":
+        return [prim[0] * a, prim[1] * b, prim[2] * a * b * b]
+    return [prim[0] * a, prim[1] * b, prim[2] * a * b * b]
+
+
+def with_units(strat_fn):
+    """the cases of a strategy, part of them expressed in other density / velocity units (key 'units', read by problem1d / problem2d)"""
+    from hypothesis import strategies as st
+    return lambda tier: st.builds(lambda c, u: dict(c, units=u), strat_fn(tier), units_strategy())
+
+
+def units_strategy():
+    from hypothesis import strategies as st
+    return st.one_of(st.none(), st.none(), st.tuples(st.integers(-6, 6), st.integers(-6, 4)).map(list))
 
 
 def problem2d(case, state_key="state"):
@@ -46,7 +73,7 @@ def problem2d(case, state_key="state"):
     P.dx, P.dy = case["mesh2d"]["lx"] / nx, case["mesh2d"]["ly"] / ny
     bclist = {t: cases.bc_clean(case["bc"][t]) for t in ("left", "right", "bottom", "top")}
     P.disc = cases.build_disc2d(P.model, P.mesh, case["num"], case.get("flux"), bclist)
-    P.prim = cases.prim_state(md, case[state_key], P.sx, P.sy)
+    P.prim = apply_units(md, cases.prim_state(md, case[state_key], P.sx, P.sy), case.get("units"))
     P.cons = cases.cons_from_prim(md, P.prim)
     P.field = cases.build_field(P.model, P.mesh, P.cons)
     return P
